@@ -261,7 +261,7 @@ static int extra_modes(const WorkerOpts &o, Stats &stats) {
         }
       rr.counters["small_roundtrips"] = n;
       rr.nontrivial = true;
-    }, 120);
+    }, 900);
     Case rep;
     rep.algo = a;
     rep.entry = en;
